@@ -242,9 +242,11 @@ struct Exec
             if (r.chance(1, 3)) {
                 v->setId("vid" + str(i));
             }
+            bool eqstress = plan.c("eqstress", 0) != 0;
             if (i < 2 && !comps.empty()) {
                 comps[0]->addVariable(v);
-            } else if (!comps.empty() && r.chance(5, 6)) {
+            } else if (!comps.empty() && r.chance(eqstress ? 1 : 5, eqstress ? 2 : 6)) {
+                // (equivalence stress: half of the variables are in no component, so that dropping the handle destroys them)
                 r.pick(comps)->addVariable(v);
             }
             vars.push_back(v);
@@ -275,7 +277,7 @@ struct Exec
             resets.push_back(rs);
             w.add(K_RESET, rs);
         }
-        for (long i = 0; i < nv / 2 && vars.size() >= 2; ++i) {
+        for (long i = 0; i < (plan.c("eqstress", 0) != 0 ? 3 * nv : nv / 2) && vars.size() >= 2; ++i) {
             auto a = r.pick(vars), b = r.pick(vars);
             if (a == b) {
                 continue;
@@ -1752,6 +1754,13 @@ Plan generate(Rng &rng, const Opts &opts, uint64_t runIndex)
     bool services = opts.f("services", rng.chance(1, 2) ? 1 : 0) != 0;
     bool drops = opts.f("drops", rng.chance(2, 3) ? 1 : 0) != 0;
     bool objects = rng.chance(3, 4);
+    // equivalence stress: many equivalences, variables that die (they are in no component), equivalence edits in between
+    bool eqstress = opts.f("eqstress", rng.chance(1, 6) ? 1 : 0) != 0;
+    if (eqstress) {
+        p.cfg["eqstress"] = 1;
+        p.cfg["nv"] = opts.f("nv", rng.range(5, 8));
+        p.cfg["nr"] = 0;
+    }
     unsigned badKinds = 0; // which kinds of bad value this run injects
     for (int b = 1; b < NBAD; ++b) {
         if (rng.chance(2, 3)) {
@@ -1776,6 +1785,19 @@ Plan generate(Rng &rng, const Opts &opts, uint64_t runIndex)
     long n = rng.range(10, 60);
     for (long i = 0; i < n; ++i) {
         unsigned r = unsigned(rng.below(100));
+        if (eqstress && rng.chance(2, 3)) {
+            unsigned k = unsigned(rng.below(10));
+            if (k < 3) {
+                p.steps.push_back(mk("DROP", {long(K_VAR), long(rng.below(8))}));
+            } else if (k < 6) {
+                p.steps.push_back(mk("Variable.removeEquivalence", {long(rng.below(8)), long(rng.below(8)), 0, B_GOOD, 0, 0}));
+            } else if (k < 9) {
+                p.steps.push_back(mk(rng.chance(1, 2) ? "Variable.addEquivalence#2" : "Variable.addEquivalence#4", {long(rng.below(8)), long(rng.below(8)), 0, B_GOOD, 0, 0}));
+            } else {
+                p.steps.push_back(mk("Variable.removeAllEquivalences", {long(rng.below(8)), 0, 0, B_GOOD, 0, 0}));
+            }
+            continue;
+        }
         if (drops && r < 8) {
             p.steps.push_back(mk("DROP", {long(rng.below(NKIND)), long(rng.below(8))}));
             continue;
